@@ -8,6 +8,7 @@ import (
 
 	"github.com/brimdata/super"
 	"github.com/brimdata/super/compiler"
+	"github.com/brimdata/super/lake/data"
 	"github.com/brimdata/super/runtime"
 	"github.com/brimdata/super/zio"
 	"github.com/segmentio/ksuid"
@@ -16,17 +17,19 @@ import (
 
 // Op is one generated lake operation of a sequential history.
 type Op struct {
-	Kind    string   `json:"op"`
-	Branch  string   `json:"branch,omitempty"`
-	N       int      `json:"n,omitempty"`     // load: batch size
-	Objs    []int    `json:"objs,omitempty"`  // indexes into the current snapshot's object list
-	Pred    string   `json:"pred,omitempty"`  // delete-where
-	Vectors bool     `json:"vectors,omitempty"`
-	Result  string   `json:"result,omitempty"`
-	Us      []int    `json:"-"`
+	Kind    string `json:"op"`
+	Branch  string `json:"branch,omitempty"`
+	N       int    `json:"n,omitempty"`      // load: batch size
+	Objs    []int  `json:"objs,omitempty"`   // indexes into the branch's sorted object list
+	Pred    string `json:"pred,omitempty"`   // delete-where
+	Vectors bool   `json:"vectors,omitempty"`
+	Other   string `json:"other,omitempty"`  // merge: parent branch; branch-create: new name; pool ops: name
+	Commit  int    `json:"commit,omitempty"` // revert / branch-create: index into the acknowledged commit list (+1; 0 = none/empty)
+	Result  string `json:"result,omitempty"`
+	Us      []int  `json:"-"`
 }
 
-// predGrammar draws a delete-where / filter predicate over the fields the
+// GenPred draws a delete-where / filter predicate over the fields the
 // generated records have: pool key (k or n.k), d (small int), u (unique int).
 func GenPred(s *kernel.Stream, spec *PoolSpec, keyRange, maxU int, depth int) string {
 	key := spec.KeyPath
@@ -101,33 +104,147 @@ func EvalWhere(ctx context.Context, spec *PoolSpec, recs []Rec, pred string) (ma
 	return out, nil
 }
 
-// SeqRun is the sequential (one client, fault-free unless a crash is armed)
-// history runner shared by C14, C13(a), C16 and C17.
-type SeqRun struct {
-	E       *Env
-	C       *Client
-	PM      *PoolM
-	Branch  *BranchM
-	Objs    []ksuid.KSUID          // objects of the branch's tip snapshot, sorted by id
-	Vecs    map[ksuid.KSUID]bool   // objects of the tip with a vector copy
-	Added   map[ksuid.KSUID]bool   // every object ever in a snapshot of this branch
-	Vacuumed map[ksuid.KSUID]bool
-	KeyRange int
-	Ops     []Op
+type idset map[ksuid.KSUID]bool
+
+func (s idset) copy() idset {
+	out := make(idset, len(s))
+	for k := range s {
+		out[k] = true
+	}
+	return out
 }
 
-// objUs is the content of a set of objects.
-func (r *SeqRun) objUs(ids []ksuid.KSUID) []int {
-	var us []int
+func (s idset) sorted() []ksuid.KSUID {
+	out := make([]ksuid.KSUID, 0, len(s))
+	for k := range s {
+		out = append(out, k)
+	}
+	sort.Slice(out, func(i, j int) bool { return strings.Compare(out[i].String(), out[j].String()) < 0 })
+	return out
+}
+
+func (s idset) equal(t idset) bool {
+	if len(s) != len(t) {
+		return false
+	}
+	for k := range s {
+		if !t[k] {
+			return false
+		}
+	}
+	return true
+}
+
+func idSet(ids []ksuid.KSUID) idset {
+	m := idset{}
 	for _, id := range ids {
+		m[id] = true
+	}
+	return m
+}
+
+// BranchS is the model of one branch: its tip and the (learned, verified)
+// object and vector sets of the tip's snapshot.
+type BranchS struct {
+	Name string
+	Tip  ksuid.KSUID
+	Objs idset
+	Vecs idset
+}
+
+// SeqRun is the sequential (one client at a time, fault-free unless a crash
+// is armed) history runner shared by C13(a), C14, C15, C16 and C17.
+type SeqRun struct {
+	E        *Env
+	C        *Client
+	PM       *PoolM
+	Br       map[string]*BranchS
+	Parent   map[ksuid.KSUID]ksuid.KSUID
+	CObjs    map[ksuid.KSUID]idset // object set per acknowledged commit
+	Acked    []ksuid.KSUID         // acknowledged commits in order
+	Added    idset                 // every object ever seen in a snapshot
+	Vacuumed idset
+	KeyRange int
+	Sig      string
+	// Generation weights.
+	BranchOps bool
+}
+
+func NewSeqRun(e *Env, c *Client, pm *PoolM, keyRange int, sig string) *SeqRun {
+	r := &SeqRun{E: e, C: c, PM: pm, Br: map[string]*BranchS{}, Parent: map[ksuid.KSUID]ksuid.KSUID{},
+		CObjs: map[ksuid.KSUID]idset{ksuid.Nil: {}}, Added: idset{}, Vacuumed: idset{}, KeyRange: keyRange, Sig: sig}
+	r.Br["main"] = &BranchS{Name: "main", Objs: idset{}, Vecs: idset{}}
+	return r
+}
+
+func (r *SeqRun) branchNames() []string {
+	var out []string
+	for n := range r.Br {
+		out = append(out, n)
+	}
+	sort.Strings(out)
+	return out
+}
+
+// usOf is the content of a set of objects.
+func (r *SeqRun) usOf(objs idset) []int {
+	var us []int
+	for id := range objs {
 		us = append(us, r.E.Objs[id].Us...)
 	}
+	sort.Ints(us)
 	return us
+}
+
+func (r *SeqRun) usOfIDs(ids []ksuid.KSUID) []int { return r.usOf(idSet(ids)) }
+
+// pathOf returns the commits from c back to the root (c first).
+func (r *SeqRun) pathOf(c ksuid.KSUID) []ksuid.KSUID {
+	var out []ksuid.KSUID
+	for c != ksuid.Nil {
+		out = append(out, c)
+		c = r.Parent[c]
+	}
+	return out
+}
+
+// ancestor is the first commit on child's path that is also on parent's.
+func (r *SeqRun) ancestor(parent, child ksuid.KSUID) (ksuid.KSUID, bool) {
+	on := idset{}
+	for _, c := range r.pathOf(parent) {
+		on[c] = true
+	}
+	for _, c := range r.pathOf(child) {
+		if on[c] {
+			return c, true
+		}
+	}
+	return ksuid.Nil, false
+}
+
+// anyVacuumed reports whether the object set refers to vacuumed objects.
+func (r *SeqRun) anyVacuumed(objs idset) bool {
+	for id := range objs {
+		if r.Vacuumed[id] {
+			return true
+		}
+	}
+	return false
 }
 
 // GenOp draws the next operation given the current model state.
 func (r *SeqRun) GenOp(s *kernel.Stream) Op {
-	n := len(r.Objs)
+	names := r.branchNames()
+	bname := names[0]
+	if len(names) > 1 {
+		bname = names[s.Intn(len(names))]
+	}
+	if _, ok := r.Br["main"]; ok && len(names) > 1 && s.Chance(1, 3) {
+		bname = "main"
+	}
+	b := r.Br[bname]
+	objs := b.Objs.sorted()
+	n := len(objs)
 	pickObjs := func(lo, max int) []int {
 		if n == 0 {
 			return nil
@@ -146,120 +263,242 @@ func (r *SeqRun) GenOp(s *kernel.Stream) Op {
 		sort.Ints(out)
 		return out
 	}
-	for {
-		switch s.Pick(8, 3, 4, 3, 2, 1, 1) {
+	bw := 0
+	if r.BranchOps {
+		bw = 3
+	}
+	for tries := 0; tries < 20; tries++ {
+		switch s.Pick(8, 3, 4, 3, 2, 1, 1, bw, bw, bw, bw/3) {
 		case 0:
 			size := s.Range(1, 30)
 			if s.Chance(1, 8) {
 				size = s.Range(30, 120)
 			}
-			return Op{Kind: "load", N: size}
+			return Op{Kind: "load", Branch: bname, N: size}
 		case 1:
 			if n == 0 {
 				continue
 			}
-			return Op{Kind: "delete", Objs: pickObjs(1, 3)}
+			return Op{Kind: "delete", Branch: bname, Objs: pickObjs(1, 3)}
 		case 2:
 			if n == 0 {
 				continue
 			}
-			return Op{Kind: "delete-where", Pred: GenPred(s, &r.PM.Spec, r.KeyRange, r.E.NextU, 2)}
+			return Op{Kind: "delete-where", Branch: bname, Pred: GenPred(s, &r.PM.Spec, r.KeyRange, r.E.NextU, 2)}
 		case 3:
-			if n == 0 {
+			if n < 2 {
 				continue
 			}
-			return Op{Kind: "compact", Objs: pickObjs(2, 6), Vectors: s.Chance(1, 3)}
+			return Op{Kind: "compact", Branch: bname, Objs: pickObjs(2, 6), Vectors: s.Chance(1, 3)}
 		case 4:
 			if n == 0 {
 				continue
 			}
-			return Op{Kind: "vector-add", Objs: pickObjs(1, 3)}
+			return Op{Kind: "vector-add", Branch: bname, Objs: pickObjs(1, 3)}
 		case 5:
 			if n == 0 {
 				continue
 			}
-			return Op{Kind: "vector-del", Objs: pickObjs(1, 3)}
+			return Op{Kind: "vector-del", Branch: bname, Objs: pickObjs(1, 3)}
 		case 6:
-			return Op{Kind: "vacuum"}
+			return Op{Kind: "vacuum", Branch: bname}
+		case 7: // branch-create from a tip or an earlier commit
+			if len(names) >= 4 {
+				continue
+			}
+			name := fmt.Sprintf("b%d", len(r.Acked)+len(names))
+			if _, ok := r.Br[name]; ok {
+				continue
+			}
+			at := 0
+			if len(r.Acked) > 0 {
+				if s.Chance(2, 3) {
+					// tip of the chosen branch
+					for i, c := range r.Acked {
+						if c == b.Tip {
+							at = i + 1
+						}
+					}
+				} else {
+					at = s.Range(0, len(r.Acked))
+				}
+			}
+			return Op{Kind: "branch-create", Other: name, Commit: at}
+		case 8: // merge child -> parent
+			if len(names) < 2 {
+				continue
+			}
+			other := names[s.Intn(len(names))]
+			if other == bname {
+				continue
+			}
+			return Op{Kind: "merge", Branch: bname, Other: other}
+		case 9: // revert an earlier commit on this branch's path (or any commit)
+			if len(r.Acked) == 0 {
+				continue
+			}
+			path := r.pathOf(b.Tip)
+			if len(path) > 0 && s.Chance(3, 4) {
+				c := path[s.Intn(len(path))]
+				for i, a := range r.Acked {
+					if a == c {
+						return Op{Kind: "revert", Branch: bname, Commit: i + 1}
+					}
+				}
+			}
+			return Op{Kind: "revert", Branch: bname, Commit: 1 + s.Intn(len(r.Acked))}
+		case 10:
+			if bname == "main" || len(names) < 2 {
+				continue
+			}
+			return Op{Kind: "branch-drop", Branch: bname}
 		}
 	}
+	return Op{Kind: "load", Branch: bname, N: 1}
 }
 
-func (r *SeqRun) ids(idx []int) []ksuid.KSUID {
+func (r *SeqRun) idsOf(b *BranchS, idx []int) []ksuid.KSUID {
+	objs := b.Objs.sorted()
 	var out []ksuid.KSUID
 	for _, i := range idx {
-		out = append(out, r.Objs[i])
+		if i < len(objs) {
+			out = append(out, objs[i])
+		}
 	}
 	return out
 }
 
-// Apply issues op through the client and returns the acknowledged commit (or
-// the error) plus the model's expectation: the content after the operation
-// and whether a failure is legitimate.
+// Expect is the model's prediction for one operation.
 type Expect struct {
-	Content   map[int]bool // content if the op takes effect
-	MayFail   bool         // an error is a legitimate outcome
-	MustFail  bool         // success would be wrong
-	NoCommit  bool         // the op creates no commit (vacuum)
-	Batch     []Rec
-}
-
-func copySet(m map[int]bool) map[int]bool {
-	out := make(map[int]bool, len(m))
-	for k := range m {
-		out[k] = true
-	}
-	return out
+	Content  []int // sorted content of the target branch if the op takes effect (nil = not predicted at value level)
+	Objs     idset // exact object set if the op takes effect (nil = not predicted at object level)
+	MayFail  bool  // an error is a legitimate outcome
+	MustFail bool  // success would be wrong
+	Kind     string
+	Batch    []Rec
+	IDs      []ksuid.KSUID
+	Target   string // branch whose tip moves ("" = none)
+	At       ksuid.KSUID
 }
 
 // Expectation computes the model's prediction for op before it is issued.
 func (r *SeqRun) Expectation(s *kernel.Stream, op *Op) (*Expect, error) {
-	ex := &Expect{Content: copySet(r.Branch.Content)}
+	ex := &Expect{Kind: op.Kind, Target: op.Branch}
+	b := r.Br[op.Branch]
 	switch op.Kind {
 	case "load":
 		ex.Batch = r.E.GenBatch(s, &r.PM.Spec, op.N, r.KeyRange)
+		us := r.usOf(b.Objs)
 		for _, rec := range ex.Batch {
-			ex.Content[rec.U] = true
+			us = append(us, rec.U)
 			op.Us = append(op.Us, rec.U)
 		}
+		sort.Ints(us)
+		ex.Content = us
 	case "delete":
-		for _, u := range r.objUs(r.ids(op.Objs)) {
-			delete(ex.Content, u)
+		ex.IDs = r.idsOf(b, op.Objs)
+		ex.Objs = b.Objs.copy()
+		for _, id := range ex.IDs {
+			delete(ex.Objs, id)
 		}
+		ex.Content = r.usOf(ex.Objs)
 	case "delete-where":
 		var recs []Rec
-		for u := range r.Branch.Content {
+		for _, u := range r.usOf(b.Objs) {
 			recs = append(recs, r.E.Recs[u])
 		}
-		sort.Slice(recs, func(i, j int) bool { return recs[i].U < recs[j].U })
 		sel, err := EvalWhere(r.E.Ctx, &r.PM.Spec, recs, op.Pred)
 		if err != nil {
 			return nil, fmt.Errorf("reference evaluation of %q: %w", op.Pred, err)
 		}
-		for u := range sel {
-			delete(ex.Content, u)
+		for _, rec := range recs {
+			if !sel[rec.U] {
+				ex.Content = append(ex.Content, rec.U)
+			}
+		}
+		if ex.Content == nil {
+			ex.Content = []int{}
 		}
 		if len(sel) == 0 {
 			ex.MayFail = true // "empty transaction"
 		}
 	case "compact":
-		if len(op.Objs) < 2 {
-			ex.MayFail = true // "two or more source objects required"
+		ex.IDs = r.idsOf(b, op.Objs)
+		ex.Content = r.usOf(b.Objs)
+		if len(ex.IDs) < 2 {
+			ex.MayFail = true
 		}
-	case "vector-add":
-		for _, id := range r.ids(op.Objs) {
-			if r.Vecs[id] {
-				ex.MustFail = true
-			}
-		}
-	case "vector-del":
-		for _, id := range r.ids(op.Objs) {
-			if !r.Vecs[id] {
+	case "vector-add", "vector-del":
+		ex.IDs = r.idsOf(b, op.Objs)
+		ex.Objs = b.Objs.copy()
+		ex.Content = r.usOf(b.Objs)
+		for _, id := range ex.IDs {
+			if b.Vecs[id] == (op.Kind == "vector-add") {
 				ex.MustFail = true
 			}
 		}
 	case "vacuum":
-		ex.NoCommit = true
+		ex.Target = ""
+	case "branch-create":
+		ex.Target = ""
+		if op.Commit > 0 && op.Commit <= len(r.Acked) {
+			ex.At = r.Acked[op.Commit-1]
+		}
+	case "branch-drop":
+		ex.Target = ""
+	case "merge":
+		// op.Branch is the child, op.Other the parent whose tip moves.
+		ex.Target = op.Other
+		child, parent := b, r.Br[op.Other]
+		base, ok := r.ancestor(parent.Tip, child.Tip)
+		if !ok {
+			// No common ancestor (one side branched from an empty pool).
+			ex.MayFail = true
+			base = ksuid.Nil
+		}
+		baseObjs := r.CObjs[base]
+		want := parent.Objs.copy()
+		for id := range child.Objs {
+			if !baseObjs[id] {
+				want[id] = true
+			}
+		}
+		for id := range baseObjs {
+			if !child.Objs[id] {
+				delete(want, id)
+			}
+		}
+		ex.Objs = want
+		ex.Content = r.usOf(want)
+		// The statement allows any merge to fail with a conflict and leave
+		// the parent untouched; the evidence counts successes.
+		ex.MayFail = true
+	case "revert":
+		c := r.Acked[op.Commit-1]
+		ex.At = c
+		cur, prev := r.CObjs[c], r.CObjs[r.Parent[c]]
+		want := b.Objs.copy()
+		changed := false
+		for id := range cur {
+			if !prev[id] && want[id] { // added by c, still present
+				delete(want, id)
+				changed = true
+			}
+		}
+		for id := range prev {
+			if !cur[id] && !want[id] { // deleted by c, still absent
+				want[id] = true
+				changed = true
+			}
+		}
+		ex.Objs = want
+		ex.Content = r.usOf(want)
+		if !changed {
+			ex.MayFail = true // "empty revert"
+		}
+		if r.anyVacuumed(want) {
+			ex.MayFail = true
+		}
 	}
 	return ex, nil
 }
@@ -267,51 +506,41 @@ func (r *SeqRun) Expectation(s *kernel.Stream, op *Op) (*Expect, error) {
 // Issue performs op on client c.
 func (r *SeqRun) Issue(c *Client, op *Op, ex *Expect) (ksuid.KSUID, []ksuid.KSUID, error) {
 	ctx := r.E.Ctx
-	pool, branch := r.PM.ID, r.Branch.Name
+	pool := r.PM.ID
 	switch op.Kind {
 	case "load":
-		id, err := c.Load(ctx, pool, &r.PM.Spec, branch, ex.Batch)
+		id, err := c.Load(ctx, pool, &r.PM.Spec, op.Branch, ex.Batch)
 		return id, nil, err
 	case "delete":
-		id, err := c.API.Delete(ctx, pool, branch, r.ids(op.Objs), commitMsg)
+		id, err := c.API.Delete(ctx, pool, op.Branch, ex.IDs, commitMsg)
 		return id, nil, err
 	case "delete-where":
-		id, err := c.API.DeleteWhere(ctx, pool, branch, op.Pred, commitMsg)
+		id, err := c.API.DeleteWhere(ctx, pool, op.Branch, op.Pred, commitMsg)
 		return id, nil, err
 	case "compact":
-		id, err := c.API.Compact(ctx, pool, branch, r.ids(op.Objs), op.Vectors, commitMsg)
+		id, err := c.API.Compact(ctx, pool, op.Branch, ex.IDs, op.Vectors, commitMsg)
 		return id, nil, err
 	case "vector-add":
-		id, err := c.API.AddVectors(ctx, r.PM.Spec.Name, branch, r.ids(op.Objs), commitMsg)
+		id, err := c.API.AddVectors(ctx, r.PM.Spec.Name, op.Branch, ex.IDs, commitMsg)
 		return id, nil, err
 	case "vector-del":
-		id, err := c.API.DeleteVectors(ctx, r.PM.Spec.Name, branch, r.ids(op.Objs), commitMsg)
+		id, err := c.API.DeleteVectors(ctx, r.PM.Spec.Name, op.Branch, ex.IDs, commitMsg)
 		return id, nil, err
 	case "vacuum":
-		ids, err := c.API.Vacuum(ctx, r.PM.Spec.Name, branch, false)
+		ids, err := c.API.Vacuum(ctx, r.PM.Spec.Name, op.Branch, false)
 		return ksuid.Nil, ids, err
+	case "branch-create":
+		return ksuid.Nil, nil, c.API.CreateBranch(ctx, pool, op.Other, ex.At)
+	case "branch-drop":
+		return ksuid.Nil, nil, c.API.RemoveBranch(ctx, pool, op.Branch)
+	case "merge":
+		id, err := c.API.MergeBranch(ctx, pool, op.Branch, op.Other, commitMsg)
+		return id, nil, err
+	case "revert":
+		id, err := c.API.Revert(ctx, pool, op.Branch, ex.At, commitMsg)
+		return id, nil, err
 	}
 	panic("unknown op " + op.Kind)
-}
-
-// Refresh re-reads the tip snapshot's object list through the observer.
-func (r *SeqRun) Refresh(sig, when string) *kernel.Violation {
-	objs, vecs, obs, err := r.E.ObserveSnapshot(r.PM, r.Branch.Tip)
-	if err != nil {
-		return kernel.Violatef(sig+":unreadable", "%s: %v", when, err)
-	}
-	r.Objs = r.Objs[:0]
-	for _, o := range objs {
-		if _, v := r.E.LearnObject(obs, r.PM, o, sig); v != nil {
-			v.Message = when + ": " + v.Message
-			return v
-		}
-		r.Objs = append(r.Objs, o.ID)
-		r.Added[o.ID] = true
-	}
-	sort.Slice(r.Objs, func(i, j int) bool { return strings.Compare(r.Objs[i].String(), r.Objs[j].String()) < 0 })
-	r.Vecs = vecs
-	return nil
 }
 
 // TipOf reads the branch tip cold.
@@ -321,4 +550,383 @@ func (e *Env) TipOf(pm *PoolM, branch string) (ksuid.KSUID, error) {
 		return ksuid.Nil, err
 	}
 	return obs.API.CommitObject(e.Ctx, pm.ID, branch)
+}
+
+// observe reads the snapshot at commit cold, learns new objects and returns
+// the object and vector sets.
+func (r *SeqRun) observe(commit ksuid.KSUID, when string) (idset, idset, *kernel.Violation) {
+	objs, vecs, obs, err := r.E.ObserveSnapshot(r.PM, commit)
+	if err != nil {
+		return nil, nil, kernel.Violatef(r.Sig+":unreadable", "%s: %v", when, err)
+	}
+	set := idset{}
+	for _, o := range objs {
+		if _, v := r.E.LearnObject(obs, r.PM, o, r.Sig); v != nil {
+			v.Message = when + ": " + v.Message
+			return nil, nil, v
+		}
+		set[o.ID] = true
+		r.Added[o.ID] = true
+	}
+	return set, idset(vecs), nil
+}
+
+// Verify checks an acknowledged commit of op against the expectation and
+// moves the model forward.
+func (r *SeqRun) Verify(op *Op, ex *Expect, commit ksuid.KSUID, when string) *kernel.Violation {
+	sig := r.Sig
+	b := r.Br[ex.Target]
+	prevObjs, prevVecs := b.Objs, b.Vecs
+	tip, terr := r.E.TipOf(r.PM, b.Name)
+	if terr != nil || tip != commit {
+		return kernel.Violatef(sig+":ack-not-tip", "%s acknowledged commit %s but the tip of %q read cold is %s %v", when, commit, b.Name, tip, terr)
+	}
+	objs, vecs, v := r.observe(commit, when)
+	if v != nil {
+		return v
+	}
+	if ex.Objs != nil && !objs.equal(ex.Objs) {
+		return kernel.Violatef(sig+":"+op.Kind+"-objects", "%s: object set after the operation differs from the model: got %d objects holding u=%v, want %d objects holding u=%v",
+			when, len(objs), clipInts(r.usOf(objs), 30), len(ex.Objs), clipInts(r.usOf(ex.Objs), 30))
+	}
+	if ex.Content != nil {
+		if ok, diff := sameMultiset(r.usOf(objs), ex.Content); !ok {
+			return kernel.Violatef(sig+":content", "%s: pool %s branch %s commit %s: union of the snapshot's %d objects differs from the model: %s%s",
+				when, r.PM.Spec.Name, b.Name, commit, len(objs), diff, r.E.describeDiff(r.usOf(objs), ex.Content))
+		}
+	}
+	// Operation-specific object-level expectations.
+	var removed, added []ksuid.KSUID
+	for id := range prevObjs {
+		if !objs[id] {
+			removed = append(removed, id)
+		}
+	}
+	for id := range objs {
+		if !prevObjs[id] {
+			added = append(added, id)
+		}
+	}
+	chosen := idSet(ex.IDs)
+	switch op.Kind {
+	case "load":
+		if len(removed) != 0 {
+			return kernel.Violatef(sig+":load-removed-objects", "%s removed objects %v", when, removed)
+		}
+		if ok, diff := sameMultiset(r.usOfIDs(added), op.Us); !ok {
+			return kernel.Violatef(sig+":load-objects", "%s: new objects do not hold exactly the loaded batch: %s", when, diff)
+		}
+		if len(added) > 1 {
+			r.E.W.Out.Probe("multi-object-load")
+		}
+	case "delete-where":
+		sel := map[int]bool{}
+		for _, u := range r.usOf(prevObjs) {
+			sel[u] = true
+		}
+		for _, u := range ex.Content {
+			delete(sel, u)
+		}
+		for _, id := range removed {
+			hit := false
+			for _, u := range r.E.Objs[id].Us {
+				hit = hit || sel[u]
+			}
+			if !hit {
+				return kernel.Violatef(sig+":delete-where-objects", "%s rewrote object %s which holds no value selected by the predicate", when, id)
+			}
+		}
+		if len(added) > 0 {
+			r.E.W.Out.Probe("delete-where-rewrote-objects")
+		}
+	case "compact":
+		for _, id := range removed {
+			if !chosen[id] {
+				return kernel.Violatef(sig+":compact-objects", "%s removed object %s which was not named", when, id)
+			}
+		}
+		if len(removed) != len(chosen) {
+			return kernel.Violatef(sig+":compact-objects", "%s: named %d objects, %d removed", when, len(chosen), len(removed))
+		}
+		if ok, diff := sameMultiset(r.usOfIDs(added), r.usOfIDs(removed)); !ok {
+			return kernel.Violatef(sig+":compact-content", "%s: compacted objects hold different values than their sources: %s", when, diff)
+		}
+		if op.Vectors {
+			for _, id := range added {
+				if !vecs[id] {
+					return kernel.Violatef(sig+":compact-vectors", "%s with vectors: new object %s has no vector copy", when, id)
+				}
+			}
+		}
+	case "vector-add", "vector-del":
+		for id := range objs {
+			want := prevVecs[id]
+			if chosen[id] {
+				want = op.Kind == "vector-add"
+			}
+			if vecs[id] != want {
+				return kernel.Violatef(sig+":vector-state", "%s: object %s has-vector=%v, expected %v", when, id, vecs[id], want)
+			}
+		}
+	case "merge":
+		r.E.W.Out.Probe("merge-succeeded")
+	case "revert":
+		r.E.W.Out.Probe("revert-succeeded")
+	}
+	if op.Kind == "load" || op.Kind == "delete" || op.Kind == "delete-where" {
+		for id := range objs {
+			if prevObjs[id] && vecs[id] != prevVecs[id] {
+				return kernel.Violatef(sig+":vector-state", "%s changed the vector state of untouched object %s", when, id)
+			}
+		}
+	}
+	// Move the model.
+	r.Parent[commit] = b.Tip
+	b.Tip, b.Objs, b.Vecs = commit, objs, vecs
+	r.CObjs[commit] = objs
+	r.Acked = append(r.Acked, commit)
+	// The state read by name and by id, cold and warm.
+	if v := r.E.CheckScan(r.C, r.PM, b.Name, r.usOf(objs), sig, when+" (issuing handle, by branch name)"); v != nil {
+		return v
+	}
+	obs, err := r.E.W.Open(r.E.Ctx, "observer", false)
+	if err != nil {
+		return kernel.Violatef(sig+":unreadable", "%s: %v", when, err)
+	}
+	return r.E.CheckScan(obs, r.PM, commit.String(), r.usOf(objs), sig, when+" (cold handle, by commit id)")
+}
+
+// CheckUntouched verifies that every branch other than skip still has its
+// model tip and is readable with its model content.
+func (r *SeqRun) CheckUntouched(skip, when string) *kernel.Violation {
+	for _, name := range r.branchNames() {
+		if name == skip {
+			continue
+		}
+		b := r.Br[name]
+		tip, err := r.E.TipOf(r.PM, name)
+		if err != nil || tip != b.Tip {
+			return kernel.Violatef(r.Sig+":other-branch-moved", "%s: branch %q tip is %s, model says %s (%v)", when, name, tip, b.Tip, err)
+		}
+		if r.anyVacuumed(b.Objs) {
+			continue
+		}
+		if b.Tip == ksuid.Nil {
+			continue
+		}
+		obs, err := r.E.W.Open(r.E.Ctx, "observer", false)
+		if err != nil {
+			return kernel.Violatef(r.Sig+":unreadable", "%s: %v", when, err)
+		}
+		if v := r.E.CheckScan(obs, r.PM, name, r.usOf(b.Objs), r.Sig+":other-branch", when+fmt.Sprintf(" (branch %q must be unaffected)", name)); v != nil {
+			return v
+		}
+	}
+	return nil
+}
+
+// VerifyFailed: an operation that reports failure leaves no visible trace.
+func (r *SeqRun) VerifyFailed(op *Op, ex *Expect, err error, when string) *kernel.Violation {
+	if v := r.CheckUntouched("", when+" (failed: "+err.Error()+")"); v != nil {
+		v.Signature = r.Sig + ":failed-op-left-trace"
+		return v
+	}
+	if op.Kind == "branch-create" {
+		if _, terr := r.E.TipOf(r.PM, op.Other); terr == nil {
+			return kernel.Violatef(r.Sig+":failed-op-left-trace", "%s failed (%v) but branch %q exists", when, err, op.Other)
+		}
+	}
+	return nil
+}
+
+// VerifyNoCommit handles the operations that acknowledge without a commit.
+func (r *SeqRun) VerifyNoCommit(op *Op, ex *Expect, vacuumed []ksuid.KSUID, when string) *kernel.Violation {
+	switch op.Kind {
+	case "vacuum":
+		if v := r.checkVacuum(r.Br[op.Branch], vacuumed, when); v != nil {
+			return v
+		}
+	case "branch-create":
+		tip, err := r.E.TipOf(r.PM, op.Other)
+		if err != nil || tip != ex.At {
+			return kernel.Violatef(r.Sig+":branch-create", "%s: new branch %q has tip %s, expected %s (%v)", when, op.Other, tip, ex.At, err)
+		}
+		src := r.CObjs[ex.At]
+		r.Br[op.Other] = &BranchS{Name: op.Other, Tip: ex.At, Objs: src.copy(), Vecs: idset{}}
+		// Vector state of the new branch is whatever the commit had.
+		if ex.At != ksuid.Nil {
+			_, vecs, v := r.observe(ex.At, when)
+			if v != nil {
+				if r.anyVacuumed(src) {
+					return nil
+				}
+				return v
+			}
+			r.Br[op.Other].Vecs = vecs
+		}
+		r.E.W.Out.Probe("branch-created")
+	case "branch-drop":
+		if _, err := r.E.TipOf(r.PM, op.Branch); err == nil {
+			return kernel.Violatef(r.Sig+":branch-drop", "%s acknowledged but branch %q still exists", when, op.Branch)
+		}
+		delete(r.Br, op.Branch)
+	}
+	return r.CheckUntouched("", when)
+}
+
+// checkVacuum: vacuum at a branch tip removes exactly the objects added by
+// commits on the tip's path that are absent from the tip's snapshot (and were
+// not vacuumed before); everything in the snapshot stays on storage.
+func (r *SeqRun) checkVacuum(b *BranchS, vacuumed []ksuid.KSUID, when string) *kernel.Violation {
+	sig := r.Sig
+	want := idset{}
+	path := r.pathOf(b.Tip)
+	for i, c := range path {
+		if i == 0 {
+			continue
+		}
+		prev := r.CObjs[r.Parent[c]]
+		for id := range r.CObjs[c] {
+			if !prev[id] && !b.Objs[id] && !r.Vacuumed[id] {
+				want[id] = true
+			}
+		}
+	}
+	got := idSet(vacuumed)
+	for id := range got {
+		if b.Objs[id] {
+			return kernel.Violatef(sig+":vacuum-live-object", "%s reported vacuuming object %s which is part of the tip snapshot", when, id)
+		}
+		if !want[id] {
+			return kernel.Violatef(sig+":vacuum-unexpected", "%s reported vacuuming object %s which the model does not consider vacuumable", when, id)
+		}
+	}
+	for id := range want {
+		if !got[id] {
+			return kernel.Violatef(sig+":vacuum-missed", "%s did not vacuum object %s (added on the branch's path, absent from the tip snapshot)", when, id)
+		}
+		r.Vacuumed[id] = true
+	}
+	if len(want) > 0 {
+		r.E.W.Out.Probe("vacuum-removed-objects")
+	}
+	obs, err := r.E.W.Open(r.E.Ctx, "observer", false)
+	if err != nil {
+		return kernel.Violatef(sig+":unreadable", "%s: %v", when, err)
+	}
+	pool, err := obs.Root.OpenPool(r.E.Ctx, r.PM.ID)
+	if err != nil {
+		return kernel.Violatef(sig+":unreadable", "%s: %v", when, err)
+	}
+	for id := range b.Objs {
+		if ok, _ := obs.H.Exists(r.E.Ctx, data.SequenceURI(pool.DataPath, id)); !ok {
+			return kernel.Violatef(sig+":vacuum-live-object", "%s: object %s of the tip snapshot is gone from storage", when, id)
+		}
+	}
+	for id := range r.Vacuumed {
+		if ok, _ := obs.H.Exists(r.E.Ctx, data.SequenceURI(pool.DataPath, id)); ok {
+			return kernel.Violatef(sig+":vacuum-missed", "%s: object %s reported vacuumed is still on storage", when, id)
+		}
+	}
+	return nil
+}
+
+// RecheckOld (C13 a): every acknowledged commit whose objects have not been
+// vacuumed must still yield exactly the content first recorded for it.
+func (r *SeqRun) RecheckOld(when string) *kernel.Violation {
+	tips := idset{}
+	for _, b := range r.Br {
+		tips[b.Tip] = true
+	}
+	for _, c := range r.Acked {
+		if tips[c] || r.anyVacuumed(r.CObjs[c]) {
+			continue
+		}
+		if v := r.E.CheckCommit(r.PM, c, r.usOf(r.CObjs[c]), r.Sig+":old-commit", fmt.Sprintf("%s, re-reading earlier commit %s", when, c)); v != nil {
+			return v
+		}
+		r.E.W.Out.Probe("old-commit-requeried")
+	}
+	return nil
+}
+
+func (r *SeqRun) touchesVacuumed(op *Op, ex *Expect) bool {
+	if len(r.Vacuumed) == 0 || op.Kind == "vacuum" || op.Kind == "branch-drop" {
+		return false
+	}
+	if b, ok := r.Br[op.Branch]; ok && r.anyVacuumed(b.Objs) {
+		return true
+	}
+	if b, ok := r.Br[op.Other]; ok && op.Kind == "merge" && r.anyVacuumed(b.Objs) {
+		return true
+	}
+	if ex.Objs != nil && r.anyVacuumed(ex.Objs) {
+		return true
+	}
+	switch op.Kind {
+	case "branch-create":
+		return r.anyVacuumed(r.CObjs[ex.At])
+	case "revert":
+		return r.anyVacuumed(r.CObjs[ex.At]) || r.anyVacuumed(r.CObjs[r.Parent[ex.At]])
+	case "merge":
+		base, _ := r.ancestor(r.Br[op.Other].Tip, r.Br[op.Branch].Tip)
+		return r.anyVacuumed(r.CObjs[base])
+	}
+	return false
+}
+
+// Step generates, issues and verifies one operation.  It returns the op (with
+// its result filled in) and a violation if any.
+func (r *SeqRun) Step(s *kernel.Stream, i int, recheckOld bool) (Op, *kernel.Violation) {
+	op := r.GenOp(s)
+	return r.Do(s, op, i, recheckOld)
+}
+
+func (r *SeqRun) Do(s *kernel.Stream, op Op, i int, recheckOld bool) (Op, *kernel.Violation) {
+	when := fmt.Sprintf("op %d (%s %s)", i+1, op.Kind, op.Branch)
+	out := r.E.W.Out
+	ex, err := r.Expectation(s, &op)
+	if err != nil {
+		op.Result = "skipped: " + err.Error()
+		return op, nil
+	}
+	if r.touchesVacuumed(&op, ex) {
+		// Once objects have been vacuumed, commits and branches that still
+		// refer to them carry no obligations (C13, C14); do not operate on
+		// them.
+		op.Result = "skipped: refers to vacuumed objects"
+		return op, nil
+	}
+	commit, vacuumed, err := r.Issue(r.C, &op, ex)
+	out.Probe("op:" + op.Kind)
+	if err != nil {
+		op.Result = "error: " + err.Error()
+		out.Probe("op-error:" + op.Kind)
+		if !ex.MayFail && !ex.MustFail {
+			return op, kernel.Violatef(r.Sig+":unexpected-error:"+op.Kind, "%s %+v on a fault-free, uncontended lake failed: %v", when, op, err)
+		}
+		return op, r.VerifyFailed(&op, ex, err, when)
+	}
+	if ex.MustFail {
+		return op, kernel.Violatef(r.Sig+":unexpected-success:"+op.Kind, "%s %+v succeeded although the model says it cannot", when, op)
+	}
+	if ex.Target == "" {
+		op.Result = fmt.Sprintf("ok %d", len(vacuumed))
+		return op, r.VerifyNoCommit(&op, ex, vacuumed, when)
+	}
+	op.Result = commit.String()
+	if v := r.Verify(&op, ex, commit, when); v != nil {
+		return op, v
+	}
+	if len(r.Br) > 1 {
+		if v := r.CheckUntouched(ex.Target, when); v != nil {
+			return op, v
+		}
+	}
+	if recheckOld {
+		if v := r.RecheckOld(when); v != nil {
+			return op, v
+		}
+	}
+	return op, nil
 }
